@@ -246,6 +246,12 @@ def generic_worker(task: Tuple[Any, ...]) -> Stats:
             if specs is None:
                 continue
             run_cfg = cfg
+            if opts.get("own_window"):
+                # a date window that spans exactly the history's OWN calendar dates (first to last): it hides nothing
+                from rp2verif.models.lots import parse_ts as _pt
+
+                own = [_pt(s2["timestamp"]).date() for s2 in specs]
+                run_cfg = C.configuration("us", from_date=min(own), to_date=max(own), **getattr(mod, "CFG_KW", {"allow_negative_balances": True}))
             if opts.get("from_last_day"):
                 from rp2verif.models.lots import parse_ts
 
@@ -300,12 +306,17 @@ def replay_compute(modname: str, path: str) -> int:
         st = Stats()
         try:
             run_cfg = cfg
+            if "date window = first to last own date" in payload.get("deviation", ""):
+                from rp2verif.models.lots import parse_ts as _pt
+
+                own = [_pt(s2["timestamp"]).date() for s2 in specs]
+                run_cfg = C.configuration("us", from_date=min(own), to_date=max(own), **getattr(mod, "CFG_KW", {"allow_negative_balances": True}))
             if payload.get("deviation", "").startswith("front end"):
                 from rp2verif import history as H
 
                 run_cfg, input_data, specs = front_end_input(H.materialize(hist, row_order="reverse" if payload["deviation"].endswith("rows reverse") else "chrono"))
             else:
-                input_data = C.build_input(cfg, specs)
+                input_data = C.build_input(run_cfg, specs)
             eng = C.engine(schedule)
             if payload.get("config_lines"):
                 got = schedule_from_config_file([tuple(x) for x in payload["config_lines"]])
